@@ -9121,6 +9121,165 @@ func smallWave30(c *core.Ctx, b *ob) {
 			}
 		}
 	}
+	// (u) a 32-bit scalar decoder accepts the largest value of its type: the overflow test is
+	// v > Max (or v < Min), never >= / <=
+	{
+		props := []string{"C03", "C12"}
+		key := "scalar-decoders:bounds-are-inclusive"
+		n, bad := 0, ""
+		for _, fn := range c.RepoFunctions() {
+			name := shortName(fn)
+			if fn.Blocks == nil || !strings.HasPrefix(name, "proto.decode") {
+				continue
+			}
+			for _, blk := range fn.Blocks {
+				for _, in := range blk.Instrs {
+					bo, ok := in.(*ssa.BinOp)
+					if !ok {
+						continue
+					}
+					ku, isU := constUint(bo.Y)
+					ki, isI := constInt(bo.Y)
+					switch {
+					case isU && (ku == math.MaxUint32 || ku == math.MaxInt32) && (bo.Op == token.GTR || bo.Op == token.GEQ):
+						n++
+						if bo.Op == token.GEQ {
+							bad = c.InstrPos(bo) + " (" + name + ")"
+						}
+					case isI && ki == math.MinInt32 && (bo.Op == token.LSS || bo.Op == token.LEQ):
+						n++
+						if bo.Op == token.LEQ {
+							bad = c.InstrPos(bo) + " (" + name + ")"
+						}
+					}
+				}
+			}
+		}
+		switch {
+		case n == 0:
+			b.addP(props, core.Undecided, key, "-", "no comparison with a 32-bit bound found in proto's scalar decoders")
+		case bad != "":
+			b.addP(props, core.Violation, key, bad, "a scalar decoder rejects the bound itself at "+bad+" (>= where > is meant): Marshal writes math.MaxUint32 and Unmarshal of those bytes fails with an overflow error")
+		default:
+			b.addP(props, core.Discharged, key, "-", fmt.Sprintf("%d comparisons with 32-bit bounds in proto's scalar decoders, all strict", n))
+		}
+	}
+	// (v) what is skipped is what the wire says is there: the element types handed to skipValues
+	// come from the header that was just read (l.Type, s.Type, m.Key, m.Value), not from the type the
+	// target expects — those differ exactly when skipValues is called
+	{
+		props := []string{"C08", "C04"}
+		key := "skip-values:given-the-wire-types"
+		n, bad := 0, ""
+		for _, fn := range c.RepoFunctions() {
+			name := shortName(fn)
+			if fn.Blocks == nil || !strings.HasPrefix(name, "thrift.") {
+				continue
+			}
+			for _, ci := range callsIn(fn) {
+				g := staticCallee(ci.Common())
+				if g == nil || g.Name() != "skipValues" {
+					continue
+				}
+				n++
+				for _, a := range ci.Common().Args {
+					// the variadic types: a slice built from an array literal whose elements are stored
+					if !isSliceType(a.Type()) {
+						continue
+					}
+					sl, ok := a.(*ssa.Slice)
+					if !ok {
+						continue
+					}
+					arr, ok := sl.X.(*ssa.Alloc)
+					if !ok {
+						continue
+					}
+					for _, blk := range fn.Blocks {
+						for _, in := range blk.Instrs {
+							st, isSt := in.(*ssa.Store)
+							if !isSt {
+								continue
+							}
+							ia, isIA := st.Addr.(*ssa.IndexAddr)
+							if !isIA || ia.X != ssa.Value(arr) {
+								continue
+							}
+							fromHeader := false
+							for _, o := range append(origins(st.Val), st.Val) {
+								if f, isF := fieldOfLoad(o); isF && (strings.HasSuffix(f, ".Type") || strings.HasSuffix(f, ".Key") || strings.HasSuffix(f, ".Value")) {
+									fromHeader = true
+								}
+								if ex, isE := o.(*ssa.Extract); isE {
+									_ = ex
+								}
+							}
+							if !fromHeader {
+								bad = c.InstrPos(ci) + " (" + name + ")"
+							}
+						}
+					}
+				}
+			}
+		}
+		switch {
+		case n == 0:
+			b.addP(props, core.Undecided, key, "-", "no call of skipValues found")
+		case bad != "":
+			b.addP(props, core.Violation, key, bad, "skipValues is told to skip elements of a type that does not come from the container header just read (the type the target expects instead): the call is made exactly when the two differ, so the elements are consumed with the wrong width and the reader loses its place — valid input ends in trailing bytes or unexpected EOF")
+		default:
+			b.addP(props, core.Discharged, key, "-", fmt.Sprintf("%d calls of skipValues, each with the types read from the wire", n))
+		}
+	}
+	// (w) the string hints (noBackslash, validAsciiPrint) describe the whole document: the scan that
+	// computes them looks at all of it (surrounding white space aside) — a bounded prefix leaves the
+	// scanner trusting "no backslash" for text nobody looked at
+	{
+		props := []string{"C17", "C02", "C05"}
+		key := "parse-hints:computed-over-the-whole-input"
+		fn := c.Lookup("json.internalParseFlags")
+		if fn == nil {
+			b.addP(props, core.Undecided, key, "-", "json.internalParseFlags not found")
+		} else {
+			bad := ""
+			for _, blk := range fn.Blocks {
+				for _, in := range blk.Instrs {
+					if sl, ok := in.(*ssa.Slice); ok && sl.High != nil {
+						bad = c.InstrPos(sl)
+					}
+				}
+			}
+			if bad != "" {
+				b.addP(props, core.Violation, key, bad, "internalParseFlags cuts the text it scans at "+bad+" and still sets the hints for the whole input: a document with its first backslash beyond the cut is scanned with noBackslash set, so a string token ends at an escaped quote and a valid document is reported as a syntax error")
+			} else {
+				b.addP(props, core.Discharged, key, c.FuncPos(fn), "the hints are computed over the trimmed input, uncut")
+			}
+		}
+	}
+	// (x) AppendVarlen appends a field whatever its payload: an empty string, bytes or message is a
+	// field with length 0 (an element of a repeated field must stay an element)
+	{
+		props := []string{"C19"}
+		key := "append-varlen:always-appends"
+		fn := c.Lookup("proto.AppendVarlen")
+		if fn == nil {
+			b.addP(props, core.Undecided, key, "-", "proto.AppendVarlen not found")
+		} else {
+			bad := ""
+			for _, r := range returnsOf(fn) {
+				for _, res := range r.Results {
+					if _, isP := res.(*ssa.Parameter); isP {
+						bad = c.InstrPos(r)
+					}
+				}
+			}
+			if bad != "" {
+				b.addP(props, core.Violation, key, bad, "AppendVarlen returns the message as it was on some path (an empty payload): MultiRewriter(String(\"a\"), String(\"\"), String(\"b\")) rewrites a repeated field to [a b] — the empty element is gone")
+			} else {
+				b.addP(props, core.Discharged, key, c.FuncPos(fn), "every return is the message with the field appended")
+			}
+		}
+	}
 	// (a) zig-zag decoding shifts the unsigned word: (v >> 1) ^ -(v & 1) with a logical shift. On a
 	// value converted to a signed type first the shift carries the sign bit along, and every value
 	// whose zig-zag form has the top bit set (|x| >= 2^30 for sint32) decodes to another number.
